@@ -1,7 +1,11 @@
 import KitModel.Go.Prelude
-/-! Driver for property C02: `kitdrv C02` reads op lines on stdin, one answer line per input line. -/
+import KitModel.Enc
+import KitModel.EncReal
+/-! Driver for property C02: `kitdrv C02` — same line protocol as `kitdrv C01`
+(`pst` toy-AEAD tamper loop, `rh`, `dec` on mutated real documents); see `KitModel/EncDrv.lean`
+and `KitModel/EncReal.lean`. -/
 namespace Driver.C02
 def main (_args : List String) : IO UInt32 := do
-  IO.eprintln "kitdrv: C02 has no model driver yet"
-  return 2
+  Kit.lineLoop (fun (_ : Unit) line => ((), Kit.Enc.Real.answer line)) ()
+  return 0
 end Driver.C02
